@@ -389,9 +389,17 @@ func (l *Logger) Flush() {
 		return
 	}
 
-	for _, entry := range entries {
+	for i, entry := range entries {
 		line := l.formatEntry(entry)
-		l.writeWithRotation(line)
+		if err := l.writeWithRotation(line); err != nil {
+			// Keep what could not be written, in order and ahead of what was logged
+			// meanwhile: the next flush tries again. A NAT translation in force without
+			// its record cannot be attributed.
+			l.bufferMu.Lock()
+			l.buffer = append(entries[i:len(entries):len(entries)], l.buffer...)
+			l.bufferMu.Unlock()
+			return
+		}
 	}
 }
 
@@ -410,9 +418,18 @@ func (l *Logger) FlushPortBlocks() {
 		return
 	}
 
-	for _, entry := range entries {
+	for i, entry := range entries {
 		line := l.formatPortBlockEntry(entry)
-		l.writeWithRotation(line)
+		if err := l.writeWithRotation(line); err != nil {
+			// Keep what could not be written (see Flush).
+			l.portBlockBufferMu.Lock()
+			// (capacity is the inline-flush threshold of addPortBlockEntry: do not shrink it)
+			kept := make([]PortBlockLogEntry, 0, max(cap(entries), len(entries)-i+len(l.portBlockBuffer)))
+			kept = append(kept, entries[i:]...)
+			l.portBlockBuffer = append(kept, l.portBlockBuffer...)
+			l.portBlockBufferMu.Unlock()
+			return
+		}
 	}
 }
 
@@ -525,10 +542,11 @@ func (l *Logger) formatNEL(entry NATLogEntry) []byte {
 	return append(line, '\n')
 }
 
-// writeWithRotation writes data and handles file rotation
-func (l *Logger) writeWithRotation(data []byte) {
+// writeWithRotation writes data and handles file rotation. It returns the error of a
+// failed write (also the write to the closed file a failed rotation leaves behind).
+func (l *Logger) writeWithRotation(data []byte) error {
 	if data == nil {
-		return
+		return nil
 	}
 
 	// For file-based logging with rotation, hold the lock during the entire
@@ -541,17 +559,20 @@ func (l *Logger) writeWithRotation(data []byte) {
 			l.rotateFileLocked()
 		}
 		// Write while still holding the lock to ensure we write to the current file
-		if _, err := l.writer.Write(data); err != nil {
+		_, err := l.writer.Write(data)
+		if err != nil {
 			l.logger.Error("Failed to write NAT log entry", zap.Error(err))
 		}
 		l.rotationMu.Unlock()
-		return
+		return err
 	}
 
 	// For non-file or non-rotating writes, no rotation lock needed
-	if _, err := l.writer.Write(data); err != nil {
+	_, err := l.writer.Write(data)
+	if err != nil {
 		l.logger.Error("Failed to write NAT log entry", zap.Error(err))
 	}
+	return err
 }
 
 // rotateFileLocked performs log file rotation
